@@ -32,6 +32,7 @@ RULE = (
     "conversion. Non-trivial = the scope selects some but not all items, or the target sits under a "
     "negation, or a value contains a special character, or the chain has >= 2 transformations."
 )
+RULE += (" " + 'A quarter of the cases first converts a rule from another log source with the same backend and pipeline objects (the rewrite must not depend on what was processed before).')
 ASSUMPTIONS = [
     "the rewrite engine in vf/props/c12.py states the documented meaning of each transformation",
     "negated items under one-to-many mappings, case-sensitive strings under value transformations and "
